@@ -38,6 +38,13 @@ func (c *Ctx) Nontrivial(key string) {
 	}
 }
 
+// SetStates reports distinct states / transitions for enumerations that walk a state space.
+func (c *Ctx) SetStates(states int) {
+	c.res.States = states
+	c.res.Transitions = c.res.Evaluations
+	c.res.Replays = c.res.Evaluations
+}
+
 // Count increments a named counter.
 func (c *Ctx) Count(name string) { c.res.Counters[name]++ }
 
